@@ -153,6 +153,75 @@ def oracle(mods, old_text, new_text):
     return fails
 
 
+def truth_summaries(g):
+    """what the text of each generated module defines: OID of its MODULE-IDENTITY, the enterprise arc of its first symbol
+    under enterprises (in declaration order), OIDs of its MODULE-COMPLIANCE statements, every OID"""
+    from gen import mibgen
+    out = []
+    for mn, m in g.modules.items():
+        ident, ent, comp, oids = None, None, [], []
+        for d in m['decls']:
+            t = g.truth.get((mn, d['name']))
+            if not t or 'oid' not in t:
+                continue
+            o = mibgen.dotted(t['oid'])
+            oids.append(o)
+            if d['kind'] == 'moduleIdentity':
+                ident = o
+            if d['kind'] == 'moduleCompliance':
+                comp.append(o)
+            if ent is None and o.startswith('1.3.6.1.4.1.'):
+                ent = '.'.join(o.split('.')[:7])
+        out.append({'name': mn, 'identity': ident, 'enterprise': ent, 'compliance': comp, 'oids': oids})
+    return out
+
+
+def real_results_stream(ctx):
+    """the index built from the results of real compile() calls over generated module sets, judged against what the texts define"""
+    from props import codegen_common as cg
+    from pysmi.codegen.jsondoc import JsonCodeGen
+    from pysmi.compiler import MibStatus
+    res = ctx.res
+    n = 25 if ctx.tier == 'quick' else 400
+    for i in range(n):
+        seed = ctx.seed * 100000 + 90000 + i
+        obs = cg.run_set(seed, backends=('json',), wild=(i % 4 == 0))
+        mods = truth_summaries(obs['gen'])
+        res.case(('real-index', tuple(sorted(obs['texts'].items()))), True)
+        res.count('real-index-sets')
+        if any(obs['status'].get('json', {}).get(m['name']) != 'compiled' for m in mods):
+            continue
+        inp = {'seed': seed, 'texts': obs['texts'], 'run_set': obs.get('run_set'), 'real_index': True}
+        fails = real_index_failures(obs, mods)
+        for fl in fails[:3]:
+            res.oracle_failures.append({'key': 'real-' + fl.split(':')[0], 'what': 'index of real compile results: ' + fl, 'input': inp})
+
+
+def real_index_failures(obs, mods):
+    from pysmi.codegen.jsondoc import JsonCodeGen
+    from pysmi.compiler import MibStatus
+    fails = []
+    processed = {}
+    for m in mods:
+        sm = obs['summary'].get(m['name'])
+        if sm is None:
+            continue
+        for k in ('identity', 'enterprise'):
+            if (sm.get(k) or None) != m[k]:
+                fails.append('summary-%s: %s reports %r, its text defines %r' % (k, m['name'], sm.get(k), m[k]))
+        if list(sm.get('compliance') or []) != m['compliance']:
+            fails.append('summary-compliance: %s reports %r, its text defines %r' % (m['name'], sm.get('compliance'), m['compliance']))
+        processed[m['name']] = MibStatus('compiled').setOptions(identity=sm.get('identity'), enterprise=sm.get('enterprise'),
+                                                               compliance=list(sm.get('compliance') or []), oids=list(sm.get('oids') or []))
+    # base modules compiled along with the set are 'untouched': they carry no data and must not disturb anything
+    for name, stt in obs['status'].get('json', {}).items():
+        if name not in processed:
+            processed[name] = MibStatus(stt)
+    text = JsonCodeGen().genIndex(processed)
+    fails += oracle(mods, None, text)
+    return fails
+
+
 def run_case(ctx, mods, old_text, reqs, metas):
     res = ctx.res
     try:
@@ -204,6 +273,7 @@ def run(ctx):
                 break
     # through MibCompiler.buildIndex + FileWriter read-back
     run_buildindex(ctx)
+    real_results_stream(ctx)
     if ctx.model is not None:
         outs = ctx.model.batch(reqs)
         for (mods, old_text, new_text), out in zip(metas, outs):
@@ -229,12 +299,18 @@ def build_sequence(builds, on_step=None):
     try:
         comps = {}
         prev = None
+        seen_names = set()
         for who, mods in builds:
             if who not in comps:
                 comps[who] = MibCompiler(None, JsonCodeGen(), FileWriter(d).setOptions(suffix='.json'))
             processed = {m['name']: MibStatus('compiled').setOptions(
                 identity=m['identity'], enterprise=m['enterprise'], compliance=m['compliance'], oids=m['oids'])
                 for m in mods}
+            # modules indexed by an earlier build come back as merely up to date / unprocessed / failed: no data, nothing to lose
+            for k_, nm in enumerate(sorted(seen_names - set(processed))):
+                if (len(processed) + k_) % 2 == 0:
+                    processed[nm] = MibStatus(['untouched', 'unprocessed', 'failed', 'missing', 'borrowed'][(len(nm) + k_) % 5])
+            seen_names.update(m['name'] for m in mods)
             comps[who].buildIndex(processed)
             with open(os.path.join(d, 'index.json')) as f:
                 text = f.read()
@@ -280,6 +356,16 @@ def search(ctx):
 
 def replay(payload):
     inp = payload['input']
+    if inp.get('real_index'):
+        from props import codegen_common as cg
+        kw = dict(inp['run_set'])
+        kw['backends'] = tuple(kw.get('backends') or ('json',))
+        obs = cg.run_set(inp['seed'], **kw)
+        fails = real_index_failures(obs, truth_summaries(obs['gen']))
+        key = payload.get('key')
+        if key:
+            fails = [f for f in fails if 'real-' + f.split(':')[0] == key] or []
+        return {'fails': bool(fails), 'what': fails[:5]}
     if 'builds' in inp:
         fails = build_sequence([tuple(b) for b in inp['builds']])
         key = payload.get('key')
